@@ -210,6 +210,10 @@ func (w *limitedWriter) Write(b []byte) (int, error) {
 
 var std = evalOpts{maxDepth: 300, dur: 60 * time.Millisecond}
 
+// correspondence cases are tiny programs whose observation must not depend on the load of the machine: a deadline
+// that fires on a busy sandbox would turn a value into the context error (seen once: SLICE M 0 -2^62 6 -> E)
+var corr = evalOpts{maxDepth: 300, dur: 5 * time.Second}
+
 // check: the direct oracle on one program; construct is only used in the case text.
 func check(c *Ctx, gen, src string, o evalOpts) outcome {
 	r := evalSrc(src, o)
@@ -332,7 +336,7 @@ func iopCase(c *Ctx, op string, a, b int64) {
 		return
 	}
 	src := intLit(a) + " " + op + " " + intLit(b)
-	r := check(c, "iop:"+op, src, std)
+	r := check(c, "iop:"+op, src, corr)
 	if !r.parsed {
 		c.Fail("generator:noparse", src, "integer operator program does not parse")
 		return
@@ -434,7 +438,7 @@ func sliceCase(c *Ctx, k cont, l idx, r *idx) {
 		rs, renc = r.lit(), r.enc()
 	}
 	src := "x=" + k.lit() + ";x[" + l.lit() + ":" + rs + "]"
-	res := check(c, "slice:"+k.kind, src, std)
+	res := check(c, "slice:"+k.kind, src, corr)
 	if !res.parsed {
 		c.Fail("generator:noparse", src, "slice program does not parse")
 		return
@@ -458,7 +462,7 @@ func sliceCase(c *Ctx, k cont, l idx, r *idx) {
 
 func indexCase(c *Ctx, k cont, i idx) {
 	src := "x=" + k.lit() + ";x[" + i.lit() + "]"
-	res := check(c, "index:"+k.kind, src, std)
+	res := check(c, "index:"+k.kind, src, corr)
 	if !res.parsed {
 		return
 	}
@@ -483,7 +487,7 @@ func indexCase(c *Ctx, k cont, i idx) {
 func iassignCase(c *Ctx, n int, i idx) {
 	k := cont{"A", n}
 	src := "x=" + k.lit() + ";x[" + i.lit() + "]=99;x"
-	res := check(c, "iassign", src, std)
+	res := check(c, "iassign", src, corr)
 	if !res.parsed {
 		return
 	}
@@ -509,7 +513,7 @@ func repCase(c *Ctx, kind string, n int, r int64) {
 	}
 	k := cont{kind, n}
 	src := k.lit() + "*" + intLit(r)
-	res := check(c, "repeat:"+kind, src, std)
+	res := check(c, "repeat:"+kind, src, corr)
 	if !res.parsed {
 		return
 	}
@@ -525,7 +529,7 @@ func concatCase(c *Ctx, n1, n2 int) {
 		return
 	}
 	src := cont{"A", n1}.lit() + "+" + cont{"A", n2}.lit()
-	res := check(c, "concat", src, std)
+	res := check(c, "concat", src, corr)
 	if !res.parsed {
 		return
 	}
@@ -570,7 +574,7 @@ func extCase(c *Ctx, minA, maxA int, types []object.Type, args []extArg) {
 	}
 	src := `r1=1;r2=2.5;r8="s";r9=[1,2.5];r3=true;func f(){vprobe(` + strings.Join(as, ",") + `)};f()`
 	probeSeen = probeSeen[:0]
-	o := std
+	o := corr
 	o.pre = pre
 	res := check(c, "extvalidate", src, o)
 	if !res.parsed {
